@@ -4,6 +4,7 @@ Property theorems only; helper lemmas live in `KrillModel.Queue.Lemmas`.
 -/
 import KrillModel.Queue.Lemmas
 import KrillModel.Generated.StartupGuard
+import KrillModel.Generated.SchedulerTasks
 namespace KM.Props.C09
 open KM.Queue
 
@@ -497,6 +498,91 @@ theorem reschedule_result_keeps_task (s s' : QState) (key : Entry) (secs : Nat)
   split at h
   · cases h; exact ⟨_, mem_kvPut.mpr (Or.inl rfl), rfl, rfl⟩
   · cases h
+
+/-! ## Follow-ups implied by committed changes (over the tables generated from the source)
+
+`KrillModel.Generated.EventTasks` and `KrillModel.Generated.SchedulerTasks` are regenerated
+from `mq.rs`, `events.rs`, `taproxy.rs`, `pubd/manager.rs` and `scheduler.rs` on every run.
+The lists on the left are the specification (what the property names). -/
+
+open KM.Generated in
+/-- CA events that change the set of published objects. -/
+def objectChanging : List KM.Generated.CaEvent :=
+  [.RoasUpdated, .AspaObjectsUpdated, .ChildCertificatesUpdated, .BgpSecCertificatesUpdated,
+   .ChildKeyRevoked, .KeyPendingToNew, .KeyPendingToActive, .KeyRollActivated,
+   .KeyRollFinished, .ParentRemoved, .ResourceClassRemoved]
+
+/-- Repository synchronisation after an object change. -/
+theorem object_change_schedules_repo_sync :
+    ∀ e ∈ objectChanging, KM.Generated.TaskKind.SyncRepo ∈ KM.Generated.caPreSaveTasks e := by
+  decide
+
+/-- Parent synchronisation after a request is created (certificate request; parent or
+repository added/updated so that requests can be made). -/
+theorem request_schedules_parent_sync :
+    ∀ e ∈ [KM.Generated.CaEvent.CertificateRequested, .ParentAdded, .ParentUpdated, .RepoUpdated],
+      KM.Generated.TaskKind.SyncParent ∈ KM.Generated.caPreSaveTasks e := by
+  decide
+
+/-- Revocation after a key is activated (the old key's revocation request is sent by the
+parent sync) and after a class is removed. -/
+theorem activation_and_removal_schedule_revocation :
+    KM.Generated.TaskKind.SyncParent ∈ KM.Generated.caPreSaveTasks .KeyRollActivated ∧
+    KM.Generated.TaskKind.ResourceClassRemoved ∈ KM.Generated.caPreSaveTasks .ResourceClassRemoved ∧
+    KM.Generated.TaskKind.UnexpectedKey ∈ KM.Generated.caPreSaveTasks .UnexpectedKeyFound := by
+  decide
+
+/-- A parent's change of a child's entitlement or key makes the (local) child sync. -/
+theorem parent_change_schedules_child_sync :
+    ∀ e ∈ [KM.Generated.CaEvent.ChildUpdatedResources, .ChildKeyRevoked],
+      KM.Generated.TaskKind.SyncParent ∈ KM.Generated.caPostSaveTasks e := by
+  decide
+
+/-- Trust-anchor proxy: a child request triggers the proxy–signer exchange, a signer response
+triggers publication and the children's syncs. -/
+theorem ta_proxy_followups :
+    KM.Generated.TaskKind.SyncTrustAnchorProxySignerIfPossible ∈
+      KM.Generated.taPreSaveTasks .ChildRequestAdded ∧
+    KM.Generated.TaskKind.SyncRepo ∈ KM.Generated.taPreSaveTasks .SignerResponseReceived ∧
+    KM.Generated.TaskKind.SyncParent ∈ KM.Generated.taPostSaveTasks .SignerResponseReceived := by
+  decide
+
+/-- An RRDP update after a publication (and after a publisher is removed). -/
+theorem publication_schedules_rrdp_update :
+    KM.Generated.TaskKind.RrdpUpdateIfNeeded ∈ KM.Generated.pubdMethodTasks .publish ∧
+    KM.Generated.TaskKind.RrdpUpdateIfNeeded ∈ KM.Generated.pubdMethodTasks .remove_publisher := by
+  decide
+
+/-- The recurring maintenance tasks. -/
+def recurring : List KM.Generated.TaskKind :=
+  [.RepublishIfNeeded, .RenewObjectsIfNeeded, .UpdateSnapshots]
+
+/-- After every start the recurring tasks (re-publication, object renewal, snapshot update)
+and the parent refresh are scheduled again (`schedule_missing`; with
+`recurring_scheduled_after_start` and `survives_restart_code`: they are then pending). -/
+theorem start_schedules_recurring :
+    ∀ t ∈ recurring ++ [KM.Generated.TaskKind.SyncParent], t ∈ KM.Generated.startMissing := by
+  decide
+
+/-- A recurring task never ends without scheduling itself again: the only result its handler
+can return is a follow-up of the same task. -/
+theorem recurring_never_stops :
+    ∀ t ∈ recurring, KM.Generated.taskResults t = [.followUp t] := by
+  decide
+
+/-- The parent refresh either follows itself up, is re-scheduled, or ends (`Done` is returned
+only for an unknown parent or a removed CA, scheduler.rs `sync_parent`). -/
+theorem parent_refresh_results :
+    ∀ r ∈ KM.Generated.taskResults .SyncParent,
+      r = .followUp .SyncParent ∨ r = .reschedule ∨ r = .done := by
+  decide
+
+/-- No task handler follows up with a *different* task (so `schedule_and_finish_existing`,
+which finishes the running entry of the follow-up's name, always finishes the task that
+just ran). -/
+theorem followups_are_self (t t' : KM.Generated.TaskKind)
+    (h : KM.Generated.ResultKind.followUp t' ∈ KM.Generated.taskResults t) : t' = t := by
+  cases t <;> simp [KM.Generated.taskResults] at h <;> exact h
 
 /-! ## Non-vacuity -/
 
